@@ -61,7 +61,8 @@ def run(case, idx):
                 except BaseException as e:
                     r = type(e).__name__
                 o = f'import {name}={r} registered={int(real in sys.modules)}'
-            out.append(o + f' active={int(DealFinder in sys.meta_path)}')
+            from deal._state import state as _st
+            out.append(o + f' active={int(DealFinder in sys.meta_path)} enabled={int(bool(_st.debug))}')
     finally:
         sys.stdout = real_out
         shutil.rmtree(d, ignore_errors=True)
